@@ -195,6 +195,21 @@ CHECKS = {
         "Metadata of composed records is only constrained where the statement says so.",
         "DESIGN.md 4/C15",
     ),
+    "C17": (
+        "exploration",
+        "bounded-exhaustive enumeration of writer call histories and of the split arithmetic grid + property-based "
+        "rotation sequences under an owned clock; oracle = read-back equality, independent tools, multiset "
+        "conservation",
+        "All protocol-valid histories of up to 5 calls (write/flush then close / with-exit / double close) are run for "
+        "12 writers (stream with 6 codecs, jsonfile, avro, sqlite, csvfile, line, text); the full grid N in 0..3L+1 x L "
+        "in 1..5 x 4 targets x 2 closing styles is run for the split writer; generated timestamp sequences with "
+        "pre-existing files drive PathTemplateWriter under a frozen or advancing clock. After the final close the "
+        "matching reader and an independent tool must see exactly the records written, parts must be readable alone "
+        "and concatenate (record-wise and as raw bytes) to the sequence, and no record may disappear in a rotation.",
+        "The rotation clock is owned by shadowing flow.record.stream.datetime from the check process. Two listed "
+        "known findings (empty stream writer closed without flush; trailing empty split part).",
+        "DESIGN.md 4/C17",
+    ),
 }
 
 NOT_APPLICABLE = {}
